@@ -324,7 +324,7 @@ def run(ctx):
     for _f in _zoo.isolation_failures(ctx, ['DDM', 'EDDM', 'STEPD']):
         ctx.fail(signature={"clause": "detector-objects-independent"}, **_f)
     rng = np.random.default_rng(ctx.seed)
-    L = 10 if ctx.quick else 13
+    L = 10 if ctx.quick else 12
     ctx.exhaustive = True
     ctx.rule = (f"exhaustive part: every binary error sequence of length {L} (hence every sequence of length <= {L}: observables are "
                 "compared after every update) x every configuration of the menus; random part: piecewise-stationary sequences of "
